@@ -35,6 +35,7 @@ type Obligation struct {
 	Ms     int64
 	Model  map[string]string
 	Output string
+	Retried bool // decided (or not) only in the low-concurrency retry phase
 }
 
 type LazyForall struct {
